@@ -67,9 +67,10 @@ def loadM (cap : Nat) (fs : FS) (st : MSt) (name : Nat) (c : Cls) (abs : Bool) :
               .ok ({ st with next := st.next + 1,
                              cache := (((name, abs), o) :: st.cache.filter (fun p => p.1 != (name, abs))).take cap }, o)
 
-/-- the mutation of a template object reaches the cache entry that holds that very object -/
+/-- the mutation of a template object (`_stream`, `_prepared`) reaches the cache entry that holds
+    that very object -/
 def writeBack (st : MSt) (o : MT) : MSt :=
-  { st with cache := st.cache.map fun e => if e.2.oid == o.oid then (e.1, o) else e }
+  { st with cache := st.cache.map fun e => if e.2.oid == o.oid then (e.1, { e.2 with prep := o.prep }) else e }
 
 abbrev PRes := MSt × Except Err (List PItem)
 
